@@ -271,6 +271,8 @@ def classify_site(c, h, n, anc, kind, facts, pv):
                 return "I10", "lifetime name is an argument of the public API parameter_ident_with_lifetime and must be an identifier by contract"
             return None, "format_ident! on a caller-supplied string %s panics if it is not an identifier" % bad
         if name in PANIC_MACROS:
+            if infeasible_rematch(anc, n):
+                return "I13", "wildcard arm of a re-match on the scrutinee of an enclosing match whose arm already fixes the variant"
             if re.search(r"arm:[^&]*TypeEntryDetails::Reference", g):
                 return "I5", "Reference entries are never stored in the type space"
             if "unwrap_or_else" in g and ".output_value(" in g:
@@ -294,6 +296,39 @@ def classify_site(c, h, n, anc, kind, facts, pv):
             return "I9", "untagged enums with several data-less variants are rejected at add time (checked below)"
         return None, "assertion / explicit panic under %s" % (g[:80] or "no condition")
     return None, "unclassified"
+
+
+def infeasible_rematch(anc, n):
+    """`n` sits in the `_` arm of a match whose scrutinee is (textually, `&` aside, a place expression of `self`/a by-reference
+    binding) the scrutinee of an enclosing match, and the enclosing arm's variants are all listed by the inner match's
+    other arms: the wildcard arm cannot be taken (`A(_) | B(_) => match x { A(..) => .., B(..) => .., _ => unreachable!() }`)."""
+    chain = list(anc) + [n]
+    ms = [(i, a) for i, a in enumerate(chain) if a.get("k") == "match" and a.get("src") == "normal"]
+    if len(ms) < 2:
+        return False
+    ii, inner = ms[-1]
+    arm_in = chain[ii + 1] if ii + 1 < len(chain) else None
+    if not (isinstance(arm_in, dict) and arm_in.get("pat", {}).get("k") == "wild" and not arm_in.get("guard")):
+        return False
+    place = src(inner["scrut"]).lstrip("&").strip()
+    if not re.fullmatch(r"(\*?self|[a-z_][a-z0-9_]*)(\.[a-z_][a-z0-9_]*)*", place):
+        return False
+    listed = set()
+    for a in inner["arms"]:
+        if a is not arm_in and not a.get("guard"):
+            listed |= set(pat_top_variants(a["pat"]))
+    for io, outer in ms[:-1]:
+        if src(outer["scrut"]).lstrip("&").strip() != place:
+            continue
+        arm_out = chain[io + 1]
+        if not isinstance(arm_out, dict) or "pat" not in arm_out:
+            continue
+        vs = set(pat_top_variants(arm_out["pat"]))
+        if vs and "_" not in vs and vs <= listed:
+            # the place must not be assigned between the two matches
+            if not any(x.get("k") == "assign" and src(x["l"]).lstrip("*").startswith(place) for x, _ in walk(arm_out["body"])):
+                return True
+    return False
 
 
 def rule_W1(facts, rep, c):
